@@ -76,6 +76,9 @@ struct Recorder {
     nth_in_op: usize,
     snaps: Vec<Snap>,
     enabled: bool,
+    /// run_crash only: thinning of session-frame log points
+    session_points: usize,
+    session_stride: usize,
 }
 
 fn is_boundary(point: &str) -> bool {
@@ -193,6 +196,8 @@ fn run(case: &Case, _known: &KnownFindings) -> CaseReport {
         nth_in_op: 0,
         snaps: Vec::new(),
         enabled: true,
+        session_points: 0,
+        session_stride: 1,
     }));
     {
         let rec = rec.clone();
@@ -357,10 +362,12 @@ fn run(case: &Case, _known: &KnownFindings) -> CaseReport {
     rep
 }
 
+include!("c05/runs.rs");
+
 fn main() {
     let mut check = Check::new("C05", "fault_enumeration");
     check.assume("crash model = process death between two file-system effects (the property's wording): no torn single write(2), no lost page cache / power failure; the image is a byte copy taken by the single running actor at a hook point");
-    check.assume("crash points are the hook-named boundaries: event log (before write, after body, after flush), every sidecar/index cache effect, thread index tmp/rename, artifact tmp/rename; session snapshots and task logs are exercised by C03/C17 histories, not here");
+    check.assume("crash points are the hook-named boundaries: event log (before write, after body, after flush), every sidecar/index cache effect, thread index tmp/rename, artifact tmp/rename; session-frame appends and session snapshots are crash points in group run_crash; task logs are exercised by C17 histories, not here");
     check.assume("acknowledged = the call returned Ok with an id before the crashing operation started");
     let known = KnownFindings::load("C05");
     let rule = "history = generated continuity operations (incl. frames > 8 KiB, manual and auto compaction, branch, handoff); EVERY hook-named write boundary of EVERY operation is a crash point (enumerated inside the case, up to 400); each image is reopened, replay-validated, checked for acknowledged appends, artifact resolution and the C04 read surface, then continued with generated appends and re-checked. non-trivial = at least one crash point strictly inside an operation; distinct by case hash";
@@ -371,6 +378,14 @@ fn main() {
         GroupOpts { cases: n, max_shrink_iters: 200, watchdog_s: 900, ..Default::default() },
         case_strategy,
         |c| run(c, &known),
+    );
+    let n = check.cases(160, 3200);
+    check.group(
+        "run_crash",
+        "history = 1-5 steps through the REAL ROUTER on one thread: prompts answered by the stub or by a scripted provider (1-39 text deltas of up to 40 KB, so a run logs far more session frames than thread frames), write/bash tool envelopes (side-effects frame + automatic checkpoint), plain sessions, manual checkpoints, auto compaction jobs, cursor rotation, branch; every hook-named write boundary reached by any thread of the runtime is a crash point (images taken while another thread wrote are discarded and counted); images at session-frame log points are thinned by a generated stride, all others are evaluated: reopen + replay_validated + numbering over ALL streams + acknowledged messages / run frames / session end frames exactly once + artifacts + the C04 read surface, then a restarted router must accept a message on every thread the image knows, run it to the end and leave a log that replays with correct numbering. non-trivial = at least one evaluated image strictly inside a step; distinct by case hash",
+        GroupOpts { cases: n, max_shrink_iters: 60, watchdog_s: 900, ..Default::default() },
+        run_case_strategy,
+        run_crash,
     );
     check.extra("exhaustive_within_case", json!(true));
     check.finish();
